@@ -30,6 +30,9 @@ CHECKS = {
     "C06": ("exploration", "runtime monitoring: listener-contract oracle with cache snapshots taken inside the real callbacks, under listener churn",
             "Spy RecordUpdateListeners record call order/arguments and snapshot the cache through public lookups inside each callback; compared with the model's expected (new, previous) list, mid state and final state for every datagram of generated histories.",
             "Only listeners registered at datagram start and not removed during it are constrained.", "2/C06"),
+    "C03": ("exploration", "runtime monitoring: reference-model oracle (ResponderModel) over the real QueryHandler results and over replies captured on the simulated wire, across register/update/unregister histories",
+            "For every registry state reached by random register/update/unregister sequences, all 1-question queries over registered/re-cased/unregistered names x 8 types, multi-question queries and known-answer boundary lists are answered by the real QueryHandler (and a sample through the simulated network) and compared with the model: exact answer set, TTLs, allowed additionals, no repeated records.",
+            "ResponderModel in vlib/models.py is the oracle; NSEC owner compared per service; ANY-on-host and NSEC known answers soundness only.", "2/C03"),
 }
 
 NOT_YET = {}
